@@ -135,7 +135,7 @@ func genAtom(t *rapid.T) node {
 	case 4:
 		return &atom{kind: "neterr"}
 	}
-	return &atom{kind: "method", op: rapid.SampledFrom([]string{"==", "!="}).Draw(t, "mop"), s: rapid.SampledFrom([]string{"GET", "POST", "HEAD", "PUT"}).Draw(t, "m")}
+	return &atom{kind: "method", op: rapid.SampledFrom([]string{"==", "!="}).Draw(t, "mop"), s: rapid.SampledFrom([]string{"GET", "POST", "HEAD", "PUT", "get", "Post", "pUT", "GET "}).Draw(t, "m")}
 }
 
 func genExpr(t *rapid.T, depth int) node {
